@@ -79,9 +79,12 @@ def run(ctx):
     chosen = anchors + offplane[:nmax] + inplane[: nmax // 3]
     jobs = [("call", dict(module="harness.fields", func="exact_instances", args=dict(instances=chosen))),
             ("call", dict(module="harness.fields", func="conversions", args={})),
-            ("call", dict(module="harness.fields", func="solved_relations", args=dict(dev="barhole")))]
+            ("call", dict(module="harness.fields", func="solved_relations", args=dict(dev="barhole", u=[-6, -3, -6]))),
+            # a device stated with MIXED prefixes (current_units / length_units is not 1 A/m): nm, mT, uA
+            ("call", dict(module="harness.fields", func="solved_relations", args=dict(dev="bar", u=[-9, -3, -6], loop=False)))]
     if not ctx.quick:
-        jobs.append(("call", dict(module="harness.fields", func="solved_relations", args=dict(dev="bar"))))
+        for u in ([-6, -3, -3], [-3, 0, -9], [-9, -6, -9]):
+            jobs.append(("call", dict(module="harness.fields", func="solved_relations", args=dict(dev="bar", u=u, loop=False))))
     res = rf.replay_all(ctx, jobs)
     ev_field, ev_conv = res[0], res[1]
     traces, labels = [], []
@@ -100,7 +103,7 @@ def run(ctx):
             q = lambda xs: [int(max(-2e9, min(2e9, round(x / scale * REL_Q)))) if x == x else 2 * 10 ** 9 for x in xs]
             traces.append({"tol": TOL_REL, "ev": [{"ev": "rel", "name": rel["name"], "a": q(rel["a"]), "b": q(rel["b"])}]})
             labels.append(("relation", rel["name"] + ": " + rel["what"], {"a": rel["a"][:6], "b": rel["b"][:6]}))
-            ctx.note_case(("rel", rel["name"], rel["what"], sr["nsites"]), True)
+            ctx.note_case(("rel", rel["name"], rel["what"], sr["nsites"], str(sr.get("u"))), True)
             nrel += 1
     tcfg = cfg(False, ["Accepted"] + INVS, spec="TSpec")
     accepted, rr = ctx.validate_traces("FieldKernelsTrace", traces, tcfg, name="FieldKernelsTrace[C20]")
